@@ -118,9 +118,10 @@ class CompleteTaskHandler(StabilizeHandler[CompleteTask]):
                         error=error,
                         source_handler="CompleteTaskHandler",
                     )
-                elif message.status == WorkflowStatus.SKIPPED:
-                    pass  # Skipped tasks don't need completion events
                 else:
+                    # SKIPPED included: there is no task-skipped event type, and
+                    # replay applies task.completed with its "status" payload, so
+                    # a skipped task replays as SKIPPED instead of RUNNING.
                     self.event_recorder.record_task_completed(
                         task,
                         workflow_id=workflow_id,
